@@ -18,10 +18,11 @@ EXPLANATION = (
     "S5 no object reachable from the Tuner stores a generator or open file in an attribute (dill); S6 model parameters "
     "round-trip by name: get_params/set_params of every kernel/mean/likelihood/warping class use the same key templates and "
     "delegate to the same components; S7 state coverage - every attribute the constructor initialises and a decision method "
-    "mutates is written by get_state (under a guard only if every mutation site implies that guard) or is a listed transient. NOT decided: equality of continuation traces at run time; numeric restoration of GP "
+    "mutates is written by get_state (under a guard only if every mutation site implies that guard) or is a listed transient; "
+    "S8 the random generator's state is saved and restored whole (no slicing / partial unpacking). NOT decided: equality of continuation traces at run time; numeric restoration of GP "
     "parameters.")
 
-FLOOR = {"S1": 5, "S2": 1, "S3": 1, "S4": 6, "S5": 1, "S6": 8, "S7": 4}
+FLOOR = {"S1": 5, "S2": 1, "S3": 1, "S4": 6, "S5": 1, "S6": 8, "S7": 4, "S8": 2}
 
 SEARCHER_BASE = "BaseSearcher"
 
@@ -683,6 +684,40 @@ def s6(ctx, rep):
     return n
 
 
+def s8(ctx, rep):
+    """the generator state is saved and restored whole"""
+    P = ctx.P
+    n = 0
+    for c in searcher_classes(ctx):
+        g = c.methods.get("get_state")
+        if g is None:
+            continue
+        for x in walk_shallow(g.node):
+            if isinstance(x, ast.Call) and fn_name(x) == "get_state" and isinstance(x.func.value, ast.Attribute) and "random_state" in x.func.value.attr:
+                n += 1
+                par = getattr(x, "_parent", None)
+                truncated = isinstance(par, ast.Subscript) and par.value is x
+                if isinstance(par, ast.Assign) and isinstance(par.targets[0], ast.Tuple) and len(par.targets[0].elts) < 5:
+                    truncated = True
+                rep.put(not truncated, "S8", "agreement", f"{c.name}.get_state saves the whole generator state", g, x, "",
+                        f"`{U(par)[:80]}` keeps only part of RandomState.get_state() (the cached Gaussian of the Box-Muller pair is dropped): "
+                        "a searcher restored after an odd number of normal draws continues with a different stream")
+        r = c.methods.get("_restore_from_state")
+        if r is None:
+            continue
+        for x in walk_shallow(r.node):
+            if isinstance(x, ast.Call) and fn_name(x) == "set_state" and isinstance(x.func.value, ast.Attribute) and "random_state" in x.func.value.attr:
+                n += 1
+                a = x.args[0] if x.args else None
+                ok = isinstance(a, ast.Subscript) and isinstance(a.value, ast.Name) and a.value.id in r.params
+                if isinstance(a, ast.Name):
+                    ds = [d for d in local_defs(r, a.id) if not isinstance(d, tuple)]
+                    ok = len(ds) == 1 and isinstance(ds[0], ast.Subscript) and isinstance(ds[0].value, ast.Name) and ds[0].value.id in r.params
+                rep.put(ok, "S8", "agreement", f"{c.name}._restore_from_state passes the saved generator state on unchanged", r, x, "",
+                        f"`{U(x)[:80]}` rebuilds the generator state from parts of what was saved")
+    return n
+
+
 def run(ctx, rep, tier="quick"):
     sweep = tier == "thorough"
     s1(ctx, rep, sweep)
@@ -692,6 +727,7 @@ def run(ctx, rep, tier="quick"):
     s5(ctx, rep)
     s6(ctx, rep)
     s7(ctx, rep, sweep)
+    s8(ctx, rep)
 
 
 # ----------------------------------------------------------------------------- S7 state coverage
